@@ -177,7 +177,7 @@ theorem sharp_step {s : PStore} (hi : s.forest.Inv) (c : PCall) (hw : c.wellKind
           Forest.FrameAt s.forest (s.step (.api y)).forest a := by
         intro a hal ha
         obtain ⟨h1, h2, h3⟩ := hnot a ha
-        exact frame_general (s := s.store) hi hfr hla hok hal h1 h2 h3
+        exact frame_general (s := s.store) hi hw hfr hla hok hal h1 h2 h3
       have frx := frame x hl (List.mem_cons_self ..)
       have hkl : ∀ a ∈ s.forest.kidHandles x, s.forest.isLive a = true := by
         intro a ha
